@@ -5,8 +5,8 @@ package bfe_route
 // Kernel (all real): host_rule_conf.HostRuleConfLoad (HostTableConfCheck + the conversion loops with the
 // duplicate-host check), buildHostRoute, trie.Set/Get, HostTable.LookupHostTagAndProduct.
 // Map iteration order is a symbolic permutation (vrt.MapOrder): the same decoded host table is loaded
-// and built twice with independent orders and every lookup must agree, unless the loader rejects the
-// configuration (in both runs).
+// and built twice, once in insertion order (reference) and once in every possible order, and every lookup
+// must agree, unless the loader rejects the configuration (in both runs).
 //
 // The file layer: HostRuleConfLoad opens and JSON-decodes the file itself. Symbolically the file name
 // "verif-json:VerifC14_decodeHost" makes the engine call VerifC14_decodeHost instead of the reflection
@@ -19,6 +19,7 @@ import (
 
 	"github.com/bfenetworks/bfe/bfe_basic"
 	"github.com/bfenetworks/bfe/bfe_config/bfe_route_conf/host_rule_conf"
+	"github.com/bfenetworks/bfe/bfe_config/bfe_route_conf/vip_rule_conf"
 	"github.com/bfenetworks/bfe/bfe_http"
 	vrt "github.com/bfenetworks/bfe/zz_vrt"
 )
@@ -80,6 +81,21 @@ func tagsC14(s ...string) *host_rule_conf.HostTagList {
 	return &l
 }
 
+// pairC14 picks an unordered pair of universe names: a fixed list of 7 representative pairs (same name,
+// case variants, trailing-dot variants, wildcard case variants, unrelated names, exact + wildcard), or
+// every pair when the tier sets ALLPAIRS=1.
+var pairsC14 = [][2]int{{0, 0}, {0, 1}, {0, 2}, {1, 2}, {4, 5}, {0, 3}, {0, 4}}
+
+func pairC14() (string, string) {
+	if vrt.Param("ALLPAIRS", 0) == 1 {
+		i := vrt.Choose("name-x", len(namesC14))
+		j := i + vrt.Choose("name-y", len(namesC14)-i)
+		return namesC14[i], namesC14[j]
+	}
+	p := pairsC14[vrt.Choose("name-pair", len(pairsC14))]
+	return namesC14[p[0]], namesC14[p[1]]
+}
+
 func mkReqC14(host string) *bfe_basic.Request {
 	return &bfe_basic.Request{HttpRequest: &bfe_http.Request{Host: host}, Session: &bfe_basic.Session{}}
 }
@@ -88,16 +104,14 @@ func VerifC14_hostTable() {
 	ver := "v"
 	conf := &host_rule_conf.HostTableConf{Version: &ver}
 	x, y := "a.c", "a.c"
-	shape := vrt.Choose("shape", 3)
+	shape := vrt.Choose("shape", 4)
 	phase := 1 // 0: map order is nondeterministic while loading; 1: while building the lookup trie
 	switch shape {
 	case 0:
 		// two names (every unordered pair of the universe) under two tags of two products; the loader's
 		// own loops run in insertion order (its 7 nested map loops would give 2^14 order pairs), the
 		// trie is built in every order
-		i := vrt.Choose("name-x", len(namesC14))
-		j := i + vrt.Choose("name-y", len(namesC14)-i)
-		x, y = namesC14[i], namesC14[j]
+		x, y = pairC14()
 		conf.Hosts = &host_rule_conf.HostTagToHost{"t1": strsC14(x), "t2": strsC14(y)}
 		conf.HostTags = &host_rule_conf.ProductToHostTag{"p1": tagsC14("t1"), "p2": tagsC14("t2")}
 	case 1:
@@ -114,16 +128,27 @@ func VerifC14_hostTable() {
 		}
 		conf.Hosts = &host_rule_conf.HostTagToHost{"": strsC14(x), "t2": strsC14(y)}
 		conf.HostTags = &host_rule_conf.ProductToHostTag{"p1": tagsC14("", "t2")}
+	case 3:
+		// two names under two tags of ONE product (only the Hosts map has two entries, so every order of
+		// the loader's loops is affordable): decides the duplicate-host check itself; the observable
+		// difference is the host tag (an input of the req_host_tag_in routing condition)
+		phase = 0
+		x, y = pairC14()
+		conf.Hosts = &host_rule_conf.HostTagToHost{"t1": strsC14(x), "t2": strsC14(y)}
+		conf.HostTags = &host_rule_conf.ProductToHostTag{"p1": tagsC14("t1", "t2")}
 	}
 	nx, ny := lowerStrC14(x), lowerStrC14(y)
-	vrt.Known("C14-host-names-differ-only-in-case", shape == 0 && x != y && nx == ny)
-	vrt.Known("C14-host-names-differ-only-in-trailing-dot", shape == 0 && nx != ny && stripDotC14(nx) == stripDotC14(ny))
+	vrt.Known("C14-host-names-differ-only-in-case", (shape == 0 || shape == 3) && x != y && nx == ny)
+	vrt.Known("C14-host-names-differ-only-in-trailing-dot", (shape == 0 || shape == 3) && nx != ny && stripDotC14(nx) == stripDotC14(ny))
 	vrt.Known("C14-host-tag-under-two-products", shape == 1)
 	vrt.Known("C14-empty-host-tag-hides-duplicate-host", shape == 2 && x == y)
 
 	file := hostFileC14(conf)
-	vrt.MapOrder(phase == 0)
+	// run 1 is the reference (maps iterate in insertion order); run 2 explores every order. "Every order
+	// agrees with the reference" is the same statement as "any two orders agree" (all comparisons below
+	// are equalities) and needs k instead of k*k paths.
 	c1, e1 := host_rule_conf.HostRuleConfLoad(file)
+	vrt.MapOrder(phase == 0)
 	c2, e2 := host_rule_conf.HostRuleConfLoad(file)
 	vrt.MapOrder(false)
 	vrt.Assert((e1 == nil) == (e2 == nil), "C14/accept-or-reject-independent-of-map-order")
@@ -131,9 +156,9 @@ func VerifC14_hostTable() {
 		vrt.Cover("C14/rejected")
 		return
 	}
-	vrt.MapOrder(phase == 1)
 	t1, t2 := newHostTable(), newHostTable()
 	t1.updateHostTable(c1)
+	vrt.MapOrder(phase == 1)
 	t2.updateHostTable(c2)
 	vrt.MapOrder(false)
 
@@ -154,4 +179,56 @@ func VerifC14_hostTable() {
 	err2 := t2.LookupHostTagAndProduct(r2)
 	vrt.Assert((err1 == nil) == (err2 == nil), "C14/same-lookup-outcome")
 	vrt.Assert(r1.Route.Product == r2.Route.Product, "C14/same-product")
+	vrt.Assert(r1.Route.HostTag == r2.Route.HostTag, "C14/same-host-tag")
+}
+
+// ---- VIP table ----
+
+var hookVipC14 *vip_rule_conf.VipTableConf
+
+func VerifC14_decVip(dst interface{}) error {
+	*(dst.(*vip_rule_conf.VipTableConf)) = *hookVipC14
+	return nil
+}
+
+var vipsC14 = []struct{ s, canon string }{
+	{"1.2.3.4", "1.2.3.4"}, {"::ffff:1.2.3.4", "1.2.3.4"}, {"2001:db8::1", "2001:db8::1"}, {"2001:DB8:0::1", "2001:db8::1"}, {"5.6.7.8", "5.6.7.8"},
+}
+
+// VerifC14_vipTable: vip_rule.data {p1:[x], p2:[y]} loaded twice (insertion order / every order):
+// acceptance and the product found for each of the two addresses must agree.
+func VerifC14_vipTable() {
+	i := vrt.Choose("vip-x", len(vipsC14))
+	j := i + vrt.Choose("vip-y", len(vipsC14)-i)
+	x, y := vipsC14[i], vipsC14[j]
+	conf := &vip_rule_conf.VipTableConf{Version: "v", Vips: vip_rule_conf.Product2Vip{"p1": {x.s}, "p2": {y.s}}}
+	vrt.Known("C14-vip-under-two-products", x.canon == y.canon)
+	var file string
+	if vrt.Symbolic() {
+		hookVipC14 = conf
+		file = "verif-json:VerifC14_decVip"
+	} else {
+		b, _ := json.Marshal(conf)
+		f, _ := os.CreateTemp("", "verifC14-*.json")
+		f.Write(b)
+		f.Close()
+		file = f.Name()
+	}
+	c1, e1 := vip_rule_conf.VipRuleConfLoad(file)
+	conf.Vips = vip_rule_conf.Product2Vip{"p1": {x.s}, "p2": {y.s}} // VipTableConfCheck rewrites the lists in place
+	vrt.MapOrder(true)
+	c2, e2 := vip_rule_conf.VipRuleConfLoad(file)
+	vrt.MapOrder(false)
+	vrt.Assert((e1 == nil) == (e2 == nil), "C14/vip-accept-or-reject-independent-of-map-order")
+	if e1 != nil || e2 != nil {
+		return
+	}
+	t1, t2 := newHostTable(), newHostTable()
+	t1.updateVipTable(c1)
+	t2.updateVipTable(c2)
+	for _, v := range []string{x.canon, y.canon} {
+		p1, err1 := t1.LookupProductByVip(v)
+		p2, err2 := t2.LookupProductByVip(v)
+		vrt.Assert((err1 == nil) == (err2 == nil) && p1 == p2, "C14/vip-same-product")
+	}
 }
